@@ -31,7 +31,7 @@ def _fun_calls(fn_node) -> List[ast.Call]:
 
 
 def r1_keyword_only(repo: Repo, rep):
-    R = rep.rule("R-C13-1", "every invocation of the wrapped callable is `self.fun(**mapping)`: no positional argument, exactly one ** mapping",
+    R = rep.rule("R-C13-1", "every invocation of the wrapped callable is `self.fun(**mapping)`: no positional argument, only ** mappings",
                  floor=4, why="a positional call binds values by position, i.e. by the (arbitrary) order of the mapping")
     n = 0
     for cname in ("UserFunction", "DomainUserFunction"):
@@ -42,26 +42,13 @@ def r1_keyword_only(repo: Repo, rep):
                 n += 1
                 stars = [k for k in c.keywords if k.arg is None]
                 named = [k.arg for k in c.keywords if k.arg is not None]
-                good = not c.args and len(stars) == 1 and not named
-                rep.check(R, good, fi.site(c), fi.fq, "self.fun(**mapping) only", dump(c), dump(c))
+                good = not c.args and len(stars) >= 1 and not named
+                rep.check(R, good, fi.site(c), fi.fq, "self.fun(**mapping[, **mapping]) only", dump(c), dump(c))
     return n
 
 
-def _match_given(dc: ast.AST, iter_txt="self.args") -> Optional[Tuple[str, str]]:
-    """{k: G[k] for k in self.args if k in G} -> ('given', G);  {k: self.defaults[k] for k in self.args if k not in G} -> ('default', G)"""
-    if not isinstance(dc, ast.DictComp) or len(dc.generators) != 1:
-        return None
-    g = dc.generators[0]
-    if not isinstance(g.target, ast.Name) or dump(g.iter) != iter_txt or len(g.ifs) != 1:
-        return None
-    k = g.target.id
-    if not (isinstance(dc.key, ast.Name) and dc.key.id == k):
-        return None
-    v = dc.value
-    if not (isinstance(v, ast.Subscript) and isinstance(v.slice, ast.Name) and v.slice.id == k):
-        return None
-    src = dump(v.value)
-    t = g.ifs[0]
+def _in_test(t: ast.AST, k: str):
+    """`k in G` / `k not in G` / not-wrapped -> (G text, polarity)"""
     pol = True
     while isinstance(t, ast.UnaryOp) and isinstance(t.op, ast.Not):
         t, pol = t.operand, not pol
@@ -72,32 +59,101 @@ def _match_given(dc: ast.AST, iter_txt="self.args") -> Optional[Tuple[str, str]]
     elif not isinstance(t.ops[0], ast.In):
         return None
     G = dump(t.comparators[0])
-    if pol and src == G:
-        return ("given", G)
-    if not pol and src == "self.defaults":
-        return ("default", G)
-    return None
+    if G.endswith(".keys()"):
+        G = G[:-7]
+    return G, pol
 
 
-def _mapping_ok(m: ast.AST) -> Tuple[bool, str]:
-    """m must be {**given, **default} with the same G (either order: key sets are disjoint)"""
-    parts = []
-    if isinstance(m, ast.Dict) and all(k is None for k in m.keys):
-        parts = list(m.values)
-    elif isinstance(m, ast.BinOp) and isinstance(m.op, ast.BitOr):
-        parts = [m.left, m.right]
+def _entries(m: ast.AST, p) -> Optional[list]:
+    """The mapping as a list of entry families (iterable text, key variable, [(G, pol)] conditions, value) — None when a part is not recognised.
+    Recognised: {**a, **b}, a | b, {k: V for k in I if C}, the one-iteration literal {k: V} of a comprehension / insertion loop over I
+    (conditions = the path's guards on k), conditional values `A if C else B`."""
+    if isinstance(m, ast.Dict) and m.keys and all(k is None for k in m.keys):
+        out = []
+        for v in m.values:
+            e = _entries(v, p)
+            if e is None:
+                return None
+            out += e
+        return out
+    if isinstance(m, ast.Dict) and not m.keys:
+        return []
+    if isinstance(m, ast.BinOp) and isinstance(m.op, ast.BitOr):
+        a, b = _entries(m.left, p), _entries(m.right, p)
+        return None if a is None or b is None else a + b
+    fams = []
+    if dump(m) == "self.defaults":
+        # the whole default mapping (its keys are declared arguments by construction)
+        return [("self.defaults", "*", [], m)]
+    if isinstance(m, ast.DictComp) and len(m.generators) == 1 and isinstance(m.generators[0].target, ast.Name):
+        g = m.generators[0]
+        k = g.target.id
+        if not (isinstance(m.key, ast.Name) and m.key.id == k):
+            return None
+        conds = []
+        for t in g.ifs:
+            c = _in_test(t, k)
+            if c is None:
+                return None
+            conds.append(c)
+        fams.append((dump(g.iter), k, conds, m.value))
+    elif isinstance(m, ast.Dict):
+        for key, val in zip(m.keys, m.values):
+            if key is None:
+                sub = _entries(val, p)
+                if sub is None:
+                    return None
+                fams_sub = sub
+                fams += [("__done__",) + tuple(x) for x in fams_sub]
+                continue
+            src = getattr(val, "_iter_src", None)
+            if not isinstance(key, ast.Name) or src is None or key.id not in getattr(val, "_iter_of", ()):
+                return None
+            k = key.id
+            conds = []
+            for g, pol, kind in p.guards:
+                if kind == "if":
+                    c = _in_test(g, k)
+                    if c is not None:
+                        conds.append((c[0], c[1] == pol))
+            fams.append((dump(src), k, conds, val))
     else:
-        return False, f"mapping is `{dump(m)[:120]}`"
-    kinds = [_match_given(x) for x in parts]
-    if any(k is None for k in kinds):
-        return False, "a part is not a name-keyed comprehension over self.args: " + "; ".join(dump(x)[:100] for x, k in zip(parts, kinds) if k is None)
-    tags = sorted(k[0] for k in kinds)
-    gs = {k[1] for k in kinds}
-    if tags != ["default", "given"]:
-        return False, f"parts are {tags} (need one `given` and one `default` selection)"
-    if len(gs) != 1:
-        return False, f"selections test different mappings {sorted(gs)}"
-    return True, f"{{k: {list(gs)[0]}[k] | k in args, given}} ∪ {{k: defaults[k] | k in args, not given}}"
+        return None
+    out = []
+    for f in fams:
+        if f[0] == "__done__":
+            out.append(tuple(f[1:]))
+            continue
+        it, k, conds, val = f
+        if isinstance(val, ast.IfExp):
+            c = _in_test(val.test, k)
+            if c is None:
+                return None
+            out.append((it, k, conds + [c], val.body))
+            out.append((it, k, conds + [(c[0], not c[1])], val.orelse))
+        else:
+            out.append((it, k, conds, val))
+    return out
+
+
+def _classify(entry) -> Tuple[Optional[str], str]:
+    """('given', G) for k -> G[k] under `k in G`; ('default', G) for k -> self.defaults[k] under `k not in G`; (None, reason) otherwise"""
+    it, k, conds, val = entry
+    if it == "self.defaults" and k == "*":
+        return "all-defaults", "*"
+    if it not in ("self.args", "self.args.keys()"):
+        return None, f"entries range over `{it}`, not over self.args"
+    if not (isinstance(val, ast.Subscript) and isinstance(val.slice, ast.Name) and val.slice.id == k):
+        return None, f"value `{dump(val)[:60]}` is not <mapping>[{k}]"
+    src = dump(val.value)
+    if len(conds) != 1:
+        return None, f"entry {k} -> {src}[{k}] selected under {conds} (need exactly one membership test)"
+    G, pol = conds[0]
+    if pol and src == G:
+        return "given", G
+    if not pol and src == "self.defaults":
+        return "default", G
+    return None, f"{k} -> {src}[{k}] selected when `{k} {'in' if pol else 'not in'} {G}`"
 
 
 def _required_check(p, G: str, before_line: int) -> bool:
@@ -106,8 +162,38 @@ def _required_check(p, G: str, before_line: int) -> bool:
         if e.kind == "assert" and e.node.lineno < before_line:
             t = e.value
             if isinstance(t, ast.Compare) and len(t.ops) == 1 and isinstance(t.ops[0], ast.In) and isinstance(t.left, ast.Name):
-                it = p.loopvars.get(t.left.id)
-                if it is not None and dump(it) == "self.necessary_args" and dump(t.comparators[0]) == G and e.loop >= 1:
+                fors = [g for g, pol, k in e.guards if k == "for"]  # the loops enclosing the assertion when it was evaluated
+                it = fors[-1] if fors else None
+                if it is not None and dump(it) == "self.necessary_args" and dump(t.comparators[0]) in (G, f"{G}.keys()") and e.loop >= 1:
+                    return True
+    def missing_list(e):
+        # [k for k in self.necessary_args if k not in G]
+        if isinstance(e, (ast.ListComp, ast.GeneratorExp, ast.SetComp)) and len(e.generators) == 1 and isinstance(e.generators[0].target, ast.Name):
+            gen = e.generators[0]
+            if dump(gen.iter) == "self.necessary_args" and len(gen.ifs) == 1 and dump(e.elt) == gen.target.id:
+                c = _in_test(gen.ifs[0], gen.target.id)
+                return c is not None and c == (G, False)
+        if isinstance(e, ast.BinOp) and isinstance(e.op, ast.Sub):
+            return dump(e.left).replace(" ", "") == "set(self.necessary_args)" and dump(e.right).replace(" ", "") in (f"set({G})", f"set({G}.keys())", f"{G}.keys()")
+        return False
+    for g, pol, kind in p.guards:
+        if kind not in ("if", "assert"):
+            continue
+        # emptiness of the list of missing required names
+        if missing_list(g) and not pol:
+            return True
+        if isinstance(g, ast.Compare) and len(g.ops) == 1 and isinstance(g.left, ast.Call) and attr_chain(g.left.func) == "len" and g.left.args and missing_list(g.left.args[0]):
+            c = g.comparators[0]
+            if isinstance(c, ast.Constant) and ((isinstance(g.ops[0], ast.Eq) and c.value == 0 and pol) or (isinstance(g.ops[0], ast.Gt) and c.value == 0 and not pol)
+                                                or (isinstance(g.ops[0], ast.GtE) and c.value == 1 and not pol) or (isinstance(g.ops[0], ast.Lt) and c.value == 1 and pol)):
+                return True
+        if isinstance(g, ast.Call) and attr_chain(g.func) == "len" and g.args and missing_list(g.args[0]) and not pol:
+            return True
+        if isinstance(g, ast.Call) and attr_chain(g.func) == "any" and len(g.args) == 1 and not pol:
+            ge = g.args[0]
+            if isinstance(ge, (ast.GeneratorExp, ast.ListComp)) and len(ge.generators) == 1 and dump(ge.generators[0].iter) == "self.necessary_args" and not ge.generators[0].ifs:
+                c = _in_test(ge.elt, dump(ge.generators[0].target))
+                if c == (G, False):
                     return True
     for g, pol, kind in p.guards:
         if kind in ("if", "assert") and pol and isinstance(g, ast.Call) and attr_chain(g.func) == "all" and len(g.args) == 1:
@@ -134,6 +220,7 @@ def r2_r3_mapping(repo: Repo, rep):
             raise AnalysisError(f"{ci.name}.{mname} vanished")
         rep.saw(fi)
         found = 0
+        seen_kinds = {}
         for p in paths(fi.node):
             if p.ret is RAISE or p.ret is None:
                 continue
@@ -146,7 +233,7 @@ def r2_r3_mapping(repo: Repo, rep):
                     pos_ok = len(c.args) == 1
                 else:
                     stars = [k.value for k in c.keywords if k.arg is None]
-                    m = stars[0] if len(stars) == 1 else None
+                    m = stars[0] if len(stars) == 1 else (ast.Dict(keys=[None] * len(stars), values=stars) if stars else None)
                     pos_ok = not c.args
                     if fname == "self.evaluate_function":
                         tgt = repo.resolve_method(ci, "evaluate_function")
@@ -158,14 +245,30 @@ def r2_r3_mapping(repo: Repo, rep):
                     rep.violation(R2, fi.site(p.ret_node), fi.fq, "arguments reach the callable through one name-keyed mapping", dump(c)[:160], dump(c)[:160])
                     continue
                 found += 1
-                ok, detail = _mapping_ok(m)
+                ents = _entries(m, p)
+                if ents is None:
+                    rep.undecided(R2, fi.site(p.ret_node), fi.fq, "the ** mapping is a recognised selection (comprehension / insertion loop / merge)", dump(m)[:200])
+                    continue
+                kinds = [_classify(e) for e in ents]
+                bad = [d for k, d in kinds if k is None]
+                gs = {d for k, d in kinds if k not in (None, "all-defaults")}
+                order = [k for k, d in kinds]
+                if "all-defaults" in order and "given" in order and max(i for i, k in enumerate(order) if k == "all-defaults") > min(i for i, k in enumerate(order) if k == "given"):
+                    bad.append("the whole default mapping is merged after the given values (later entries win): defaults override given values")
+                ok = not bad and len(gs) <= 1 and bool(ents)
+                detail = "; ".join(bad)[:240] if bad else (f"selections test different mappings {sorted(gs)}" if len(gs) > 1 else f"{sorted({k for k, d in kinds})} over {sorted(gs)}")
                 rep.check(R2, ok, fi.site(p.ret_node), fi.fq, "mapping = given-selection ∪ default-selection over self.args", detail, dump(m)[:300])
                 if ok:
-                    G = [_match_given(x) for x in (m.values if isinstance(m, ast.Dict) else [m.left, m.right])][0][1]
+                    G = list(gs)[0]
+                    seen_kinds.setdefault(id(p.ret_node), [p.ret_node, set()])[1].update("default" if k == "all-defaults" else k for k, d in kinds)
                     # G must be the method's own argument mapping (after the Points -> coordinates conversion)
                     dom = _required_check(p, G, p.ret_node.lineno)
                     rep.check(R3, dom, fi.site(p.ret_node), fi.fq, f"`key in {G}` for every key in self.necessary_args is checked before the call",
                               "no dominating required-name check on this path", "no required check")
+        for rn, ks in seen_kinds.values():
+            miss = {"given", "default"} - ks
+            rep.check(R2, not miss, fi.site(rn), fi.fq, "over the paths to this call both the given values and the defaults of absent names are passed",
+                      f"never passed: {sorted(miss)}", f"never passed: {sorted(miss)}")
         if found == 0:
             rep.undecided(R2, fi.site(), fi.fq, "an invocation path", "no path invoking the wrapped function found")
     # necessary_args = args without defaults
@@ -275,6 +378,24 @@ def r5_copy_on_partial(repo: Repo, rep):
             rep.check(R, good, pe.site(e.node), pe.fq, "state-changing call only on copy.deepcopy(self)", f"receiver `{recv}`", dump(e.node))
             if good:
                 rep.check(R, dump(p.ret) == "copy.deepcopy(self)", pe.site(p.ret_node), pe.fq, "the mutated copy is what is returned", dump(p.ret), dump(p.ret))
+    # outcome typestate of partially_evaluate for a callable: the value (all required names bound) or a fresh deep copy carrying the new defaults
+    argname = pe.node.args.kwarg.arg if pe.node.args.kwarg else (pe.params[1] if len(pe.params) > 1 else "args")
+    for p in paths(pe.node):
+        if p.ret is RAISE or p.ret is None:
+            continue
+        if not any(pol and dump(g) == "callable(self.fun)" for g, pol, k in p.guards):
+            continue
+        r = p.ret
+        invoked = any(isinstance(c, ast.Call) and dump(c.func) in ("self.fun", "self.evaluate_function") for c in ast.walk(r))
+        bound = _required_check(p, argname, p.ret_node.lineno)
+        if invoked:
+            rep.check(R, bound, pe.site(p.ret_node), pe.fq, "the value is returned only when every required name is bound", "invocation without the required-name test", "unguarded invocation")
+            continue
+        is_copy = dump(r) == "copy.deepcopy(self)"
+        carried = any(e.kind == "call" and isinstance(e.value, ast.Call) and dump(e.value.func) == "copy.deepcopy(self).set_default" for e in p.events)
+        rep.check(R, is_copy and carried and not bound, pe.site(p.ret_node), pe.fq,
+                  "a callable that is not fully bound yields a fresh deep copy carrying the given values as defaults (never the original wrapper, never before the required-name test)",
+                  f"returns `{dump(r)[:60]}`" + ("" if not bound else " although every required name is bound") + ("" if carried or not is_copy else " without set_default"), f"returns {dump(r)[:60]}")
     dc = uf.methods.get("__deepcopy__")
     if dc is None:
         rep.ok(R, uf.module.relpath, uf.fq, "default deepcopy (copies every attribute)", "no custom __deepcopy__")
